@@ -501,7 +501,9 @@ def _scan_instances(tier):
             for pcrel in (False, True):
                 cie = dict(kind='cie', version=1, aug='zLR', lsda_enc=le, lsda_pcrel=pcrel, fde_enc='sdata4', fde_pcrel=True)
                 out.append(dict(little=little, addr=addr, eh=True, entries=[cie, dict(kind='fde', cie=0, pad=2), dict(kind='fde', cie=0, instr=True)]))
-        for aug, extra in (('zPLR', dict(pers_enc='udata4')), ('zP', dict(pers_enc='absptr')), ('zS', {}), ('zRS', {}), ('zPR', dict(pers_enc='sdata8')), ('z', {})):
+        for aug, extra in (('zPLR', dict(pers_enc='udata4')), ('zP', dict(pers_enc='absptr')), ('zS', {}), ('zRS', {}), ('zPR', dict(pers_enc='sdata8')), ('z', {}),
+                           # the letters after z may come in any order, the data follows the order of the letters
+                           ('zSR', {}), ('zRSL', {}), ('zSPLR', dict(pers_enc='udata4')), ('zRLP', dict(pers_enc='udata2')), ('zLSR', {})):
             cie = dict(kind='cie', version=(3 if aug == 'zS' else 1), aug=aug, lsda_enc='udata4', fde_enc='udata4', **extra)
             ents = [cie] + ([dict(kind='fde', cie=0, instr=True)] if 'R' in aug else []) + [dict(kind='zero')]
             out.append(dict(little=little, addr=addr, eh=True, entries=ents))
@@ -522,6 +524,6 @@ HARNESSES = [
            'arguments symbolic) for every opcode, (b) CIE decoding, (c) pairs, (d) remember/restore_state patterns; alignment factors, offsets, locations symbolic; '
            'rows, CFA rule, register rules, reg_order equal the reference interpreter of DWARF 5 6.4.2'),
     H('h6_1_scan', h_scan, _scan_instances, expect=('ok',),
-      desc='.debug_frame (CIE v1/3/4, DWARF32/64, addr 4/8, FDE before its CIE) and .eh_frame (augmentations z, zR, zLR, zPLR, zP, zS, zRS, zPR; 9 pointer encodings x '
+      desc='.debug_frame (CIE v1/3/4, DWARF32/64, addr 4/8, FDE before its CIE) and .eh_frame (augmentations z, zR, zLR, zPLR, zP, zS, zRS, zPR and other letter orders (zSR, zRSL, zSPLR, zRLP, zLSR); 9 pointer encodings x '
            'abs/pcrel; any section address) sections: kinds, order, offsets, header fields, augmentation dict/bytes, pc-relative initial_location and LSDA, FDE->CIE link'),
 ]
